@@ -56,14 +56,16 @@ class C10(core.Check):
     technique = ("translator: per-site fault outcome tables extracted from the real send/receive/handshake methods over every errno and ssl error class "
                  "(finite-domain probing, cross-checked with the errno tuples read from the AST) + which exceptions the two Server.service loops catch (AST); "
                  "Lean theorems by `decide` over the regenerated tables and by induction over a model of Server/ServerTls.service; differential run on fake sockets")
-    level_text = ("Proved: conn_fault_is_cutoff_partial (all ten sites, the property's errno list by this platform's values and TLS EOF; EPIPE excluded at the eight "
-                  "send/receive sites — conn_fault_fails_at_epipe proves it raises there, known finding C10-K1, pinned by the tree's own test), handshake_fault_is_aborted (no exclusion), "
-                  "service_total (for EVERY server state with open sockets and EVERY script — any fault code at any call — Server.service returns without raising), "
-                  "service_total_history (every history of accept/service/transmit/remove), siblings_unaffected (each connection's fate after service is a function of its own state only), "
-                  "client_service_total_partial. Tables and loop handlers are re-extracted from the source on every run; the Server model is tied by the correspondence run.")
+    level_text = ("Proved: conn_fault_is_cutoff_partial (all eight send/receive sites x the property's errno list by this platform's values, EPIPE excluded — "
+                  "conn_fault_fails_at_epipe proves it raises there: known finding C10-K1, pinned by the tree's own test), tls_eof_is_cutoff, handshake_fault_is_aborted (both TLS handshakes, "
+                  "no exclusion), wouldblock_is_not_a_fault, ast_matches_probe (errno tuples in the source text = probed behaviour), loops_catch_oserror — all by `decide` over tables regenerated from the source on every run; "
+                  "service_total (for EVERY serviceable server state and EVERY script — any fault code at any send/recv/handshake call — Server.service returns without raising), "
+                  "service_total_history (every history of accept / reset-before-accept / service / transmit / remove), siblings_unaffected + sibling_serviced (each connection's fate after service "
+                  "is a function of its own state and script only), client_service_total_partial + listed_faults_benign (Client/ClientTls never raise on classified faults). "
+                  "The Server/ServerTls model is tied to the code by the correspondence run on fake sockets; real peer FIN/RST at every point (also before accept) is run on loopback sockets.")
     level_note = ("Trusted: Lean kernel + standard axioms; translator harness/extract/tcp.py (probing is exhaustive over errno.errorcode + ssl classes; an errno outside it is "
                   "assumed to take the same `else: raise` / `except OSError` path); fake sockets stand in for the kernel.")
-    quick_n = 1200
+    quick_n = 1500
     thorough_n = 20000
     rule = ("cases: (site s code) one real call with the socket raising that fault — ALL 10 sites x all codes exhaustively every run; (cli ...) a client history with faults; "
             "(srv ...) a server with 1-4 connections, faults on a random subset at random call indices, plus every fault position of a fixed two-connection exchange x every connection-level code (exhaustive). "
@@ -100,11 +102,15 @@ class C10(core.Check):
         return [
             ("site", "remoter_send", errno.EPIPE), ("site", "clienttls_recv", T.SSLEOF), ("site", "clienttls_hs", T.SSLEOF),
             ("site", "clienttls_hs", errno.ECONNRESET), ("site", "remotertls_hs", errno.ECONNABORTED),
+            ("realsrv", False, "rst", -1, 2), ("realsrv", True, "rst", -1, 1), ("realsrv", False, "fin", 1, 3), ("realsrv", True, "fin", 0, 1),
             ("cli", "clienttls", [("tx", b"hello"), ("svc",), ("svc",)], [("acc", 2), ("f", T.SSLEOF)], [("d", b"abc")]),
             ("cli", "client", [("tx", b"hello"), ("svc",), ("svc",)], [("acc", 2), ("f", errno.EPIPE)], [("d", b"abc")]),
             ("srv", False, [("conn", 1, [("acc", 3)], [("d", b"hi")], []), ("conn", 2, [("f", errno.EPIPE)], [("d", b"yo")], []), ("svc",),
                             ("tx", 1, b"abcdef"), ("tx", 2, b"zz"), ("svc",), ("svc",)]),
             ("srv", False, [("conn", 1, [], [("f", errno.EBADF)], []), ("conn", 2, [("acc", 9)], [("d", b"yo")], []), ("svc",), ("tx", 2, b"q"), ("svc",)]),
+            # a peer that resets before it is accepted (found with real sockets): must not make service() raise
+            ("srv", False, [("dconn", 1), ("conn", 2, [("acc", 9)], [("d", b"yo")], []), ("svc",), ("tx", 2, b"q"), ("svc",)]),
+            ("srv", True, [("conn", 1, [], [], [("ok",)]), ("dconn", 2), ("dconn", 1), ("svc",), ("svc",)]),
             ("srv", True, [("conn", 1, [("acc", 3)], [("d", b"hi")], [("f", T.WANT_READ), ("ok",)]), ("conn", 2, [], [], [("f", errno.ECONNRESET)]),
                            ("conn", 3, [], [("f", T.SSLEOF)], [("ok",)]), ("svc",), ("svc",), ("tx", 1, b"abcdef"), ("svc",)]),
         ]
@@ -122,7 +128,7 @@ class C10(core.Check):
 
     def generate(self, rng, n, tier):
         for _ in range(8 if tier == "quick" else 200):
-            yield ("realsrv", rng.random() < 0.35, rng.choice(["rst", "fin"]), rng.randrange(0, 5), rng.randrange(1, 6))
+            yield ("realsrv", rng.random() < 0.35, rng.choice(["rst", "fin"]), rng.randrange(-1, 5), rng.randrange(1, 6))
         for _ in range(n):
             r = rng.random()
             if r < 0.55:
